@@ -5,7 +5,8 @@ V = '/verif'
 SCRATCH = '/tmp/wt_seed'   # seeds are applied to a scratch worktree of /repo (VERIF_REPO), not to /repo itself
 EXTRA = {'C05-v2': ['C05', 'C16'], 'C06-v1': ['C06'], 'C06-v2': ['C06', 'C05'], 'C07-v2': ['C07', 'C08'], 'C08-v1': ['C08'], 'C08-v2': ['C08', 'C07'],
          'C04-v1': ['C04'], 'C04-v2': ['C04'], 'C11-v1': ['C11'], 'C11-v2': ['C11'], 'C03-v1': ['C03'], 'C03-v2': ['C03'], 'C01-v1': ['C01'], 'C01-v2': ['C01'], 'C09-v1': ['C09', 'C03'], 'C09-v2': ['C09'],
-         'C13-v1': ['C13'], 'C13-v2': ['C13'], 'C18-v1': ['C18'], 'C18-v2': ['C18'], 'C05-v1': ['C05'], 'C02-v1': ['C02'], 'C02-v2': ['C02'], 'C07-v1': ['C07']}
+         'C04b-v1': ['C04', 'C07'], 'C20-v1': ['C20'], 'C19-v1': ['C19', 'C12'], 'C19-v2': ['C19', 'C13'], 'C12-v1': ['C12'], 'C12-v2': ['C12', 'C07'], 'C13-v1': ['C13'], 'C13-v2': ['C13'], 'C18-v1': ['C18'], 'C18-v2': ['C18'], 'C05-v1': ['C05'], 'C02-v1': ['C02'], 'C02-v2': ['C02'], 'C07-v1': ['C07']}
+TIER = {('C20-v1', 'C20'): 'thorough'}   # caught by a thorough-only harness (h_toyfork)
 force = '--force' in sys.argv
 only = [a for a in sys.argv[1:] if not a.startswith('--')]
 for sid in sorted(os.listdir(V + '/seeded')):
@@ -28,9 +29,10 @@ for sid in sorted(os.listdir(V + '/seeded')):
         for prop in EXTRA.get(sid, [meta['breaks_property']]):
             if not force and prop in meta.get('checks_run_against_it', {}):
                 continue
-            p = subprocess.run([V + '/check', prop, '--no-evidence'], cwd=V, capture_output=True, text=True, env=dict(os.environ, VERIF_REPO=SCRATCH, VERIF_WORK='/verif/.work_matrix'))
+            tier = TIER.get((sid, prop), 'quick')
+            p = subprocess.run([V + '/check', prop, '--no-evidence', '--tier', tier], cwd=V, capture_output=True, text=True, env=dict(os.environ, VERIF_REPO=SCRATCH, VERIF_WORK='/verif/.work_matrix', VERIF_REPLAYS='/verif/.work_matrix/replays'))
             viol = re.findall(r'harness=(\S+) sig=(\S+)', p.stdout)
-            meta['checks_run_against_it'][prop] = {'cmd': './check %s --tier quick (patch applied to /repo, reverted afterwards)' % prop, 'exit': p.returncode, 'caught': p.returncode == 1,
+            meta['checks_run_against_it'][prop] = {'cmd': './check %s --tier %s (patch applied to a scratch worktree of /repo handed to the check via VERIF_REPO)' % (prop, tier), 'exit': p.returncode, 'caught': p.returncode == 1,
                                                    'violations': sorted(set('%s %s' % v for v in viol))[:6]}
             print(sid, prop, 'exit', p.returncode, sorted(set(v[0] for v in viol)))
             sys.stdout.flush()
